@@ -3,7 +3,9 @@ CONSTANTS
   Vouchers = {"va", "vb"}
   AmtClasses = {"1", "2", "zero", "garbage", "neg"}
   RecvClasses = {"user", "invalid", "blocked"}
+  BackDenoms = {"va", "vb"}
   HookReturnsAck = TRUE
-INVARIANTS AckAlwaysCommitted SuccessAcked Backed
+INVARIANTS AckAlwaysCommitted SuccessAcked Backed NonNegative
+PROPERTIES SettledOnce RefundExact
 CONSTRAINT Bound
 CHECK_DEADLOCK FALSE
